@@ -266,6 +266,12 @@ static void p_tx(hconn_t *h, htp_tx_t *tx) {
 
 static void p_uid_opt(hconn_t *h, htp_tx_t *tx) { if (tx) printf("%ld", tx_uid(h, tx)); else printf("-"); }
 
+/* what a caller may do after any call: read the last error the parser recorded (it must never dangle) */
+static void touch_last_error(htp_connp_t *cp) {
+    htp_log_t *le = htp_connp_get_last_error(cp);
+    if (le != NULL) { volatile int lv = (int) le->level; (void) lv; if (le->msg) { volatile size_t ml = strlen(le->msg); (void) ml; } }
+}
+
 int op_conn(int id, int n, char **t) {
     if (id < 0 || id >= MAXCONN || n < 1) return 0;
     hconn_t *h = &g_conns[id];
@@ -326,6 +332,7 @@ int op_conn(int id, int n, char **t) {
         htp_verif_inflate_cb = zt_cb; g_zt_len = 0; if (g_zt) g_zt[0] = 0;
         if (t[0][2] == 'q') { g_live_req = buf; g_live_req_len = al; rc = htp_connp_req_data(cp, &tv, buf, al); consumed = htp_connp_req_data_consumed(cp); g_live_req = NULL; }
         else { g_live_res = buf; g_live_res_len = al; rc = htp_connp_res_data(cp, &tv, buf, al); consumed = htp_connp_res_data_consumed(cp); g_live_res = NULL; }
+        touch_last_error(cp);
         printf("rc=%d consumed=%zu len=%ld ev=[%s]", rc, consumed, al, h->ev ? h->ev : "");
         if (n == 3) {
             /* replay run: the trace recorded earlier is supplied (the model runs against it); report whether zlib did the same again */
@@ -370,6 +377,7 @@ int op_conn(int id, int n, char **t) {
             int rc_; size_t cons_; \
             if (isreq) { g_live_req = cb_; g_live_req_len = (plen); rc_ = htp_connp_req_data(cp, &tv, cb_, (plen)); cons_ = htp_connp_req_data_consumed(cp); g_live_req = NULL; } \
             else { g_live_res = cb_; g_live_res_len = (plen); rc_ = htp_connp_res_data(cp, &tv, cb_, (plen)); cons_ = htp_connp_res_data_consumed(cp); g_live_res = NULL; } \
+            touch_last_error(cp); \
             printf("%s%s:rc=%d:consumed=%zu:len=%zu:ev=[%s]", first ? "" : " ;; ", (isreq) ? "req" : "res", rc_, cons_, (size_t) (plen), h->ev ? h->ev : ""); \
             first = 0; \
             unsigned char **oth_ = (isreq) ? &in_other : &out_other; size_t *ol_ = (isreq) ? &in_len : &out_len; \
